@@ -45,6 +45,32 @@ Theorem C11_npv_price_strict : forall (r : Q) (c : cf_in) (pE pE' : list Q), 0 <
 Proof. exact npv_strict_in_electricity_price. Qed.
 Print Assumptions C11_npv_price_strict.
 
+(* ... for every single-product end-use, with or without carbon revenue (the carbon-price series, identical in both
+   runs, covers the years the product is sold): electricity, direct-use heat, cooling *)
+Theorem C11_npv_price_strict_elec_carbon : forall (r : Q) (c : cf_in) (pE pE' : list Q), 0 < 1 + r ->
+  ci_kind c = KElec -> nonneg (ci_eE c) -> Forall2 Qle pE pE' ->
+  (ci_carbon c = true -> (length (ci_eE c) <= length (ci_pCarb c))%nat) ->
+  (exists j, 0 < nth j (ci_eE c) 0 /\ nth j pE 0 < nth j pE' 0 /\ (j < length (ci_eE c))%nat /\ (j < length pE)%nat) ->
+  npv r (total_cashflow (with_prices c pE (ci_pH c) (ci_pC c))) < npv r (total_cashflow (with_prices c pE' (ci_pH c) (ci_pC c))).
+Proof. exact npv_strict_in_electricity_price_carbon. Qed.
+Print Assumptions C11_npv_price_strict_elec_carbon.
+
+Theorem C11_npv_price_strict_heat : forall (r : Q) (c : cf_in) (pH pH' : list Q), 0 < 1 + r ->
+  ci_kind c = KHeat -> nonneg (ci_eH c) -> Forall2 Qle pH pH' ->
+  (ci_carbon c = true -> (length (ci_eH c) <= length (ci_pCarb c))%nat) ->
+  (exists j, 0 < nth j (ci_eH c) 0 /\ nth j pH 0 < nth j pH' 0 /\ (j < length (ci_eH c))%nat /\ (j < length pH)%nat) ->
+  npv r (total_cashflow (with_prices c (ci_pE c) pH (ci_pC c))) < npv r (total_cashflow (with_prices c (ci_pE c) pH' (ci_pC c))).
+Proof. exact npv_strict_in_heat_price. Qed.
+Print Assumptions C11_npv_price_strict_heat.
+
+Theorem C11_npv_price_strict_cooling : forall (r : Q) (c : cf_in) (pC pC' : list Q), 0 < 1 + r ->
+  ci_kind c = KCool -> nonneg (ci_eC c) -> Forall2 Qle pC pC' ->
+  (ci_carbon c = true -> (length (ci_eC c) <= length (ci_eH c))%nat /\ (length (ci_eC c) <= length (ci_pCarb c))%nat) ->
+  (exists j, 0 < nth j (ci_eC c) 0 /\ nth j pC 0 < nth j pC' 0 /\ (j < length (ci_eC c))%nat /\ (j < length pC)%nat) ->
+  npv r (total_cashflow (with_prices c (ci_pE c) (ci_pH c) pC)) < npv r (total_cashflow (with_prices c (ci_pE c) (ci_pH c) pC')).
+Proof. exact npv_strict_in_cooling_price. Qed.
+Print Assumptions C11_npv_price_strict_cooling.
+
 (* a zero-rate tax credit, zero fees, zero incentives and a zero grant leave capital cost unchanged *)
 Theorem C11_neutral_adjustments : forall k : cost_in,
   k_ritc k == 0 -> k_flat k == 0 -> k_other k == 0 -> k_grant k == 0 -> ccap k == ccap_pre k.
@@ -61,3 +87,18 @@ Print Assumptions C11_neutral_addon.
 Example ex_scale : let c := Verif.Props.C01.ex1 in
   let '(a, b, _) := lcoe_exec c in let '(a3, b3, _) := lcoe_exec (scale_costs 3 c) in a3 == 3 * a /\ b3 == 3 * b /\ 0 < a.
 Proof. vm_compute. repeat split; discriminate. Qed.
+
+(* a heat plant with carbon revenue meets the hypotheses of C11_npv_price_strict_heat, and NPV does rise *)
+Example ex_heat_strict :
+  let c := {| ci_kind := KHeat; ci_cy := 2; ci_ccap := 30; ci_coam := 1; ci_carbon := true; ci_gi := 1 # 2; ci_ni := 1 # 3;
+              ci_eE := []; ci_eH := [1000000; 900000; 800000]; ci_eC := [];
+              ci_pE := []; ci_pH := [2; 2; 2]; ci_pC := []; ci_pCarb := [1 # 100; 1 # 100; 1 # 100] |} in
+  nonneg (ci_eH c) /\ (length (ci_eH c) <= length (ci_pCarb c))%nat /\
+  npv (7 # 100) (total_cashflow (with_prices c (ci_pE c) [2; 2; 2] (ci_pC c)))
+    < npv (7 # 100) (total_cashflow (with_prices c (ci_pE c) [2; 3; 2] (ci_pC c))).
+Proof.
+  cbv zeta. split; [|split].
+  - unfold nonneg. cbn [ci_eH]. repeat (apply Forall_cons; [discriminate|]). apply Forall_nil.
+  - cbn [ci_eH ci_pCarb length]. apply le_n.
+  - vm_compute. reflexivity.
+Qed.
